@@ -54,7 +54,7 @@ def gen_instance(rng: random.Random, family: str | None = None, max_jobs=4, max_
 def make_huge(rng: random.Random, jobs):
     """Some durations far beyond 2**53 (where float64 stops being exact), the rest unchanged: all of the library's
     time arithmetic the properties speak about is integer arithmetic."""
-    big = 2 ** rng.choice([53, 54, 60])
+    big = 2 ** rng.choice([53, 54, 60, 63, 64, 70])
     return [[(ms, d if rng.random() < 0.6 else big + rng.randint(0, 3)) for ms, d in job] for job in jobs]
 
 
